@@ -940,6 +940,24 @@ pub fn run(cfg: &Cfg) -> Report {
     };
     inputs.push(("bif-stress".into(), e));
   }
+  // time / date constructors with components inside their ranges and seconds of arbitrary precision
+  for _ in 0..(if thorough { 20000 } else { 300 }) {
+    let frac_digits = rng.below(20) as usize;
+    let frac: String = (0..frac_digits).map(|_| char::from(b'0' + rng.below(10) as u8)).collect();
+    let sec = if frac.is_empty() { format!("{}", rng.below(60)) } else { format!("{}.{}", rng.below(60), frac) };
+    let sec = match rng.below(6) {
+      0 => format!("{}/3", rng.below(180)),
+      1 => format!("{} + 0.{}1", rng.below(59), "0".repeat(rng.below(12) as usize)),
+      _ => sec,
+    };
+    let e = match rng.below(5) {
+      0 | 1 => format!("time({}, {}, {})", rng.below(24), rng.below(60), sec),
+      2 => format!("time({}, {}, {}, duration(\"{}PT{}H{}M\"))", rng.below(24), rng.below(60), sec, if rng.chance(1, 2) { "-" } else { "" }, rng.below(15), rng.below(60)),
+      3 => format!("time(hour: {}, minute: {}, second: {}, offset: duration(\"PT{}H\"))", rng.below(24), rng.below(60), sec, rng.below(15)),
+      _ => format!("date and time(date({}, {}, {}), time({}, {}, {}))", 1 + rng.below(3000), 1 + rng.below(12), 1 + rng.below(28), rng.below(24), rng.below(60), sec),
+    };
+    inputs.push(("bif-stress".into(), e));
+  }
   for d in [1usize, 2, 10, 50, 100, 150, 200] {
     for (fam, s) in deep_inputs(d) {
       inputs.push((format!("deep:{}", fam), s));
